@@ -16,4 +16,7 @@ Inits3 == {G3(E5a, <<1,1,0,0,0>>, <<1,1,1,1,1>>, <<0,0,1,1,1>>), G3(E5b, <<1,1,1
            G3(E5b, <<1,0,1,0,1>>, <<0,1,0,1,0>>, <<1,1,0,0,0>>), G3({}, <<1,1,1,1,0>>, <<0,0,0,0,1>>, <<1,0,0,0,1>>)}
 InitsSmall == Inits3 \cup {G2({<<0,1>>, <<1,2>>, <<2,3>>}, <<1, 3, 2, 2>>), G2({<<0,1>>, <<2,3>>}, <<3, 1, 2, 3>>)}
 InitsDepth1 == InitsAll2 \cup Inits3
+\* complete-graph mode: two small overlapping two-label graphs (the reachable set multiplies quickly with the number of points)
+InitsTiny == {G2({<<0,1>>, <<1,2>>, <<2,3>>}, <<1, 3, 2, 2>>), G2({<<0,1>>, <<2,3>>}, <<3, 1, 2, 3>>)}
+InitsOne == {G2({<<0,1>>, <<2,3>>}, <<3, 1, 2, 3>>)}
 =============================================================================
